@@ -131,7 +131,10 @@ def make_loop(kind: str, world: W.World) -> LoopBox:  # noqa: C901
         from urwid.event_loop.asyncio_loop import AsyncioEventLoop  # noqa: PLC0415
 
         lp = aioloop.new_loop(world)
-        return LoopBox(kind, AsyncioEventLoop(loop=lp), lp.close)
+        box = LoopBox(kind, AsyncioEventLoop(loop=lp), lp.close)
+        # a second urwid loop object on the same asyncio loop (an application that builds two MainLoops up front)
+        box.extra["make_decoy"] = lambda: AsyncioEventLoop(loop=lp)
+        return box
 
     if kind == "tornado":
         from tornado.platform.asyncio import AsyncIOLoop  # noqa: PLC0415
@@ -149,7 +152,9 @@ def make_loop(kind: str, world: W.World) -> LoopBox:  # noqa: C901
                 if not lp.is_closed():
                     lp.close()
 
-        return LoopBox(kind, TornadoEventLoop(loop=io), cleanup)
+        box = LoopBox(kind, TornadoEventLoop(loop=io), cleanup)
+        box.extra["make_decoy"] = lambda: TornadoEventLoop(loop=io)
+        return box
 
     if kind == "twisted":
         from twisted.internet.asyncioreactor import AsyncioSelectorReactor  # noqa: PLC0415
@@ -189,7 +194,9 @@ def make_loop(kind: str, world: W.World) -> LoopBox:  # noqa: C901
             if not lp.is_closed():
                 lp.close()
 
-        return LoopBox(kind, TwistedEventLoop(reactor=reactor), cleanup)
+        box = LoopBox(kind, TwistedEventLoop(reactor=reactor), cleanup)
+        box.extra["make_decoy"] = lambda: TwistedEventLoop(reactor=reactor)
+        return box
 
     if kind == "zmq":
         _patch_zmq()
